@@ -165,6 +165,9 @@ func (e *c12Exec) DispatchOperation(ctx context.Context, rc *graphql.OperationCo
 			return nil
 		}
 		k++
+		if !zzsym.Symbolic() {
+			time.Sleep(3 * time.Millisecond) // natively: give the 1ms keep-alive ticker a chance to fire between payloads
+		}
 		return &graphql.Response{Data: json.RawMessage(`{"k":` + string(rune('0'+k)) + `}`)}
 	}, ctx
 }
